@@ -18,6 +18,7 @@ vars == <<i, j>>
 S(s) == Str(s)
 M(ps) == MapV(ps)
 UCore == <<
+  BigV(FALSE, <<49, 56, 52, 52, 54, 55, 52, 52, 48, 55, 51, 55, 48, 57, 53, 53, 49, 54, 49, 53>>),
   Nil, Bool(TRUE), Bool(FALSE),
   IntV(0 - 1), IntV(0), IntV(1), IntV(2),
   Flt(0 - 1, 2), Flt(0, 1), Flt(1, 1), Flt(3, 2), Flt(5, 2),
@@ -27,6 +28,11 @@ UCore == <<
 >>
 UMore == <<
   IntV(100), IntV(0 - 100), Flt(201, 2), Flt(1, 4), Flt(0 - 5, 2), IntV(100000000), IntV(0 - 100000000),
+  \* the boundaries of the 64-bit widths: max uint64, 2^63, min int64, max int64
+  BigV(FALSE, <<49, 56, 52, 52, 54, 55, 52, 52, 48, 55, 51, 55, 48, 57, 53, 53, 49, 54, 49, 53>>),
+  BigV(FALSE, <<57, 50, 50, 51, 51, 55, 50, 48, 51, 54, 56, 53, 52, 55, 55, 53, 56, 48, 56>>),
+  BigV(TRUE, <<57, 50, 50, 51, 51, 55, 50, 48, 51, 54, 56, 53, 52, 55, 55, 53, 56, 48, 56>>),
+  BigV(FALSE, <<57, 50, 50, 51, 51, 55, 50, 48, 51, 54, 56, 53, 52, 55, 55, 53, 56, 48, 55>>),
   S(<<195, 169>>), S(<<97, 32, 98>>), S(<<32>>), S(<<116, 114, 117, 101>>), S(<<110, 105, 108>>), S(<<48>>),
   S(<<49, 46, 48>>), S(<<65>>), S(<<97, 97>>),
   Arr(<<IntV(2), IntV(1)>>), Arr(<<Arr(<<IntV(1)>>)>>), Arr(<<IntV(1), Arr(<<IntV(2)>>)>>), Arr(<<Nil, Nil>>),
